@@ -224,8 +224,9 @@ fn parse_7_binary_temp(tokens: &[HctlToken]) -> Result<HctlTreeNode, String> {
 fn parse_8_unary(tokens: &[HctlToken]) -> Result<HctlTreeNode, String> {
     let unary_token = index_of_first_unary(tokens);
     Ok(if let Some(i) = unary_token {
-        // perform check that unary operator is not directly preceded by some atomic sub-formula
-        if i > 0 && matches!(&tokens[i - 1], HctlToken::Atom(..)) {
+        // perform check that unary operator is not directly preceded by some other sub-formula
+        // (an atomic one or one in parentheses), which would otherwise be silently ignored
+        if i > 0 {
             return Err(format!(
                 "Unary operator can't be directly preceded by {}.",
                 &tokens[i - 1]
